@@ -82,7 +82,8 @@ def int_value(rng, small):
     r = rng.random()
     if r < 0.75:
         return str(rng.choice(small))
-    return rng.choice(["0", "-3", "+5", "abc", "", "1.5", "9223372036854775808", "007", "0x10", "1_0", "64", "-0"])
+    return rng.choice(["0", "-3", "+5", "abc", "", "1.5", "9223372036854775808", "007", "0x10", "1_0", "64", "-0", "0b101", "0o17", "0X1f", "_1", "1_", "1__0",
+                       "0x_10", "08", "+", "0x", "-9223372036854775808", "0b2", "012"])
 
 
 def gen_argv(rng, files):
